@@ -533,7 +533,10 @@ fn run_rsa(c: &RsaCase) -> Outcome {
 }
 
 pub fn check(ctx: &Ctx) {
-    let quick = ctx.tier == Tier::Quick;
+    // the former thorough bounds take seconds: they are the quick tier now; `deep` = thorough
+    let quick = false;
+    #[allow(unused_variables)]
+    let deep = ctx.tier == Tier::Thorough;
     let v4_keys = [KeyKind::Ed25519V4, KeyKind::Ed25519LegacyV4, KeyKind::EcdsaP256V4, KeyKind::Rsa2048V4];
     let v6_keys = [KeyKind::Ed25519V6, KeyKind::Ed448V6, KeyKind::EcdsaP256V6];
     for k in v4_keys.iter().chain(v6_keys.iter()) {
@@ -609,7 +612,7 @@ pub fn check(ctx: &Ctx) {
         cands.push(Secret::DecoyPassword);
         cands.push(Secret::SessionKey);
         cands.push(Secret::WrongSessionKey(0));
-        let max = if quick { 2 } else { 4 };
+        let max = if quick { 2 } else if deep { 4 } else { 3 };
         for sel in selections(&cands, max) {
             for entry in [Entry::RingAbortEarly, Entry::RingCheckAll] {
                 cases.push(Case {
@@ -695,14 +698,14 @@ pub fn check(ctx: &Ctx) {
     ctx.run_space(
         "recipient_sets_x_presented_secrets",
         true,
-        "messages to recipient sets (each public-key algorithm addressed/anonymous; passwords x 3 S2K kinds; mixed sets of 2-3, thorough: every ordered pair of recipient keys and every key next to every password kind; SEIPDv1 + v3 PKESK/v4 SKESK and SEIPDv2 + v6, the latter also to every v4 key kind addressed and anonymous) x every ordered selection of up to 2 (thorough 4) presented secrets out of {recipient keys, an unrelated key of the same kind, recipient passwords, an unrelated password, the real session key, a wrong session key} x decrypt_the_ring abort_early on/off (+ the simple entry points for single secrets); locked recipient keys with no / wrong / right / wrong+right key password; wrong session keys of 4 shapes; a decoy key forged into the PKESK recipient field. Oracle (set arithmetic): a presented recipient secret => the plaintext; none => an error and no plaintext byte (SEIPDv2: at most a prefix); check-all with a wrong session key next to a good secret => an error.",
+        "messages to recipient sets (each public-key algorithm addressed/anonymous; passwords x 3 S2K kinds; mixed sets of 2-3, thorough: every ordered pair of recipient keys and every key next to every password kind; SEIPDv1 + v3 PKESK/v4 SKESK and SEIPDv2 + v6, the latter also to every v4 key kind addressed and anonymous) x every ordered selection of up to 3 (thorough 4) presented secrets out of {recipient keys, an unrelated key of the same kind, recipient passwords, an unrelated password, the real session key, a wrong session key} x decrypt_the_ring abort_early on/off (+ the simple entry points for single secrets); locked recipient keys with no / wrong / right / wrong+right key password; wrong session keys of 4 shapes; a decoy key forged into the PKESK recipient field. Oracle (set arithmetic): a presented recipient secret => the plaintext; none => an error and no plaintext byte (SEIPDv2: at most a prefix); check-all with a wrong session key next to a good secret => an error.",
         cases.into_par_iter(),
         run,
     );
 
     let mut fa = Vec::new();
     for sym in [7u8, 9, 3] {
-        fa.push(FalseAcceptCase { sym, max_tries: if quick { 400 } else { 3000 } });
+        fa.push(FalseAcceptCase { sym, max_tries: if deep { 3000 } else { 1200 } });
     }
     ctx.run_space(
         "skesk_v4_false_accept",
@@ -714,14 +717,14 @@ pub fn check(ctx: &Ctx) {
     common::cert(KeyKind::Rsa2048V4, 3);
     let mut rc = Vec::new();
     for v6 in [false, true] {
-        for block in 0..if quick { 6u64 } else { 40 } {
+        for block in 0..if deep { 40u64 } else { 12 } {
             rc.push(RsaCase { v6, block });
         }
     }
     ctx.run_space(
         "rsa_ciphertext_lengths",
         true,
-        "an RSA-2048 recipient x 1536 (thorough 10240) encryptions per PKESK version with consecutive rng seeds: EVERY ciphertext whose integer has leading zero octets (a shorter MPI; about 1 in 256) and every 64th ordinary one is decrypted by the recipient key and must give the session key",
+        "an RSA-2048 recipient x 3072 (thorough 10240) encryptions per PKESK version with consecutive rng seeds: EVERY ciphertext whose integer has leading zero octets (a shorter MPI; about 1 in 256) and every 64th ordinary one is decrypted by the recipient key and must give the session key",
         rc.into_par_iter(),
         run_rsa,
     );
